@@ -80,9 +80,10 @@ LEVEL_TEXT = ("Machine-checked theorems (Coq 8.16, closed under the global conte
               "C02_bridge / C02_bridge_x (user_conventional[x] c0 -> conv / convx (build_self c0) for ALL valid c0: generated "
               "--help/--version flags, Arg::_build, index assignment, deprecated-settings push, Built mark; the low-index conjunct "
               "is derived from the declared arguments), C02_unparse_user(_y): the un-parser theorem stated on the command as "
-              "written, and C02_bridge_tree / C02_unparse_user_tree: for whole command TREES as written (the user-level class is "
-              "stable under the propagation of global settings and global arguments into a child, so every level's class conjunct "
-              "of wf_inv follows; old class).  C02_pending_bounded IS ONE INVARIANT of parse_loop: for all assert_app commands, all token lists, all "
+              "written, and C02_bridge_tree(_y) / C02_unparse_user_tree(_y): for whole command TREES as written (the user-level "
+              "class is stable under the propagation of global settings and global arguments into a child, and the child the "
+              "parser builds is build_self of the propagated declared child, so every level's class conjunct of wf_inv / wfy_inv "
+              "follows; old and lifted class).  C02_pending_bounded IS ONE INVARIANT of parse_loop: for all assert_app commands, all token lists, all "
               "exits of the loop (errors included), the occurrence being collected for an OPTION never holds more than "
               "num_args.max values (C02_pending_invariant: PB holds initially and is re-established at every iteration).")
 LEVEL_NOTE = ("Outside the lifted class (-- directly after an open multi-valued positional run, dont_delimit_trailing_values, the values "
@@ -90,9 +91,9 @@ LEVEL_NOTE = ("Outside the lifted class (-- directly after an open multi-valued 
               "positional with negative-number (not hyphen) values whose run stays open, require_equals options given without a "
               "value, a subcommand directly after a look-ahead run, flag/external subcommands, ignore_errors, "
               "args_conflicts_with_subcommands, subcommand_precedence_over_arg) conservation is checked by the python un-parser / "
-              "model comparison only.  The bridge discharges the class conjuncts of every level for the old class (C02_bridge_tree) and of "
-              "the ROOT level for the lifted class; the items (names resolve, value tokens) are checked on the built command by "
-              "computation, and so is the class of the children of a lifted-class tree.  The pending bound is for options; for multi-valued positionals it stays refuted "
+              "model comparison only.  The bridges discharge the class conjuncts of every level (old and lifted class); the items of each "
+              "level (names resolve by key on the built command, value tokens) and the subcommand-name tests are still checked on the "
+              "built command by computation.  The pending bound is for options; for multi-valued positionals it stays refuted "
               "(their run is counted when flushed: C02_flushed_in_range).  The python un-parser stream renders the conventional "
               "grammar; the fourth-pass shapes are tied to the crate by the stream unparse_tails (flat commands, expectations computed "
               "from the invocation), by the corpus lines of the Coq examples (expectations = the pinned theorem statements) and by the "
